@@ -339,6 +339,8 @@ class Ctx:
             v.origin = origin
         if isinstance(v, VRef):
             self.assume_ref_wf(v)
+        if isinstance(v, VDyn):
+            self.assume(z3.And(v.kind >= 0, v.kind <= 3))
         return v
 
     def assume_ref_wf(self, v):
@@ -363,6 +365,13 @@ class Ctx:
             if isinstance(v, VOpt):
                 return v.terms()
             return [z3.BoolVal(False)] + self.store_terms(v, ty.t)
+        if isinstance(ty, _v._TDyn):
+            if isinstance(v, VDyn): return v.terms()
+            if isinstance(v, VNone): return [z3.IntVal(0), z3.StringVal(''), z3.IntVal(0)]
+            if isinstance(v, VBool): return [z3.IntVal(1), z3.StringVal(''), z3.If(v.term, 1, 0)]
+            if isinstance(v, VInt): return [z3.IntVal(1), z3.StringVal(''), v.term]
+            if isinstance(v, VStr): return [z3.IntVal(2), v.term, z3.IntVal(0)]
+            return [z3.IntVal(3), z3.StringVal(''), self.fresh('dyn_id', IntSort)]
         if isinstance(ty, _v._TOpaque):
             if isinstance(v, VOpaque) and v.term is not None:
                 return [v.term]
